@@ -158,6 +158,69 @@ CHECKS["C10"] = dict(
     ref="6/C10",
 )
 
+CHECKS["C02"] = dict(
+    text="key_sound_partial (equal keys => bound arguments agree outside the ignore list: composition of C07.filterArgs_eq_bind and "
+    "C08's injectivity, H only assumed collision-free on the keys of the history), cached_call_correct_partial (every history of "
+    "calls, shelved gets, forced calls, checks, clears, evictions, fresh processes returns what the plain function returns), "
+    "shared_entry_same_args_partial, and the F12-consequence / shared-function-id witnesses; histories on a real Memory with functions "
+    "that return their bound arguments are compared step by step (value, executed?, key class; md5 of the model stream == real args id).",
+    note="_partial = argument dicts hashed without the md5 fallback (F31 known), callables other than partial objects sharing one "
+    "function id (F35 known); modelled not verified: md5, pickle of results (C03), the store as an abstract finite map (C05/C11).",
+    technique="Lean 4 proof (composition of the C07 and C08 models; induction over cache histories) + history correspondence on a real Memory",
+    ref="6/C02",
+)
+CHECKS["C06"] = dict(
+    text="key_complete_partial (arguments agreeing outside the ignore list => equal keys, incl. dict/set arguments built in another "
+    "order), hit_after_call, hit_after_equivalent_call_partial, check_iff_hit, hit_after_forced_call, wrapper_accepts over the "
+    "MemoryCache model; F20/F30 witnesses; same history correspondence as C02 with execution counters, check_call_in_cache, ignore "
+    "lists and fresh-process steps.",
+    note="_partial excludes functools.partial objects (F20, F32 known) and aliased argument objects (F33 known).",
+    technique="Lean 4 proof (key completeness via C08.encode_perm_invariant; induction over cache histories) + history correspondence",
+    ref="6/C06",
+)
+CHECKS["C12"] = dict(
+    text="value_from_own_version (every history of definitions, calls of live versions and fresh processes: a call returns what its own "
+    "version computes), unchanged_code_keeps_cache, reachable_inv over the FuncCode model (_FUNCTION_HASHES, the writer table of the "
+    "F10 repair, on-disk func_code.py comparison); F10 witnesses on the pre-fix model; histories run as generated programs in their "
+    "own interpreters (module-level, nested, __main__ functions; lambdas as out-of-domain controls).",
+    note="modelled not verified: inspect.getsource / get_func_code text extraction, weakref table lifetime; sessions are sequential.",
+    technique="Lean 4 proof (invariant over definition/call/process histories) + generated-program correspondence",
+    ref="6/C12",
+)
+CHECKS["C05"] = dict(
+    text="final_name_complete (every prefix, torn or not, of every workload: output.pkl and metadata.json hold complete content), "
+    "crash_state_ok, crash_recovery (every workload, every crash point, every torn length: the next call in a fresh process returns "
+    "the right value and does not raise, incl. expires_after), recovery_idempotent_partial, later_calls_correct_partial, F8/F9/F36 "
+    "witnesses, over a file-system model with the store protocol as programs of FS operations; the model's operation list must equal "
+    "the strace log of the real workload op for op, and REAL kills (strace inject SIGKILL at the k-th FS call, torn writes by "
+    "truncation) are followed by the same call in a fresh process.",
+    note="modelled not verified: kernel behaviour at kill -9 (completed rename durable, interrupted write leaves a prefix), directory "
+    "listing order (an input), pickle; F36 (stale value after a kill inside the rmtree of a source-change clear) is a known finding.",
+    technique="Lean 4 proof (invariant over every prefix of FS-operation programs) + strace op-sequence correspondence + real SIGKILL injection",
+    ref="6/C05",
+)
+CHECKS["C11"] = dict(
+    text="rely/guarantee: participants_satisfy_G(_evict,_clear), one_complete_result(_star), call_correct_under_G_calls and "
+    "call_correct_under_G_evict (a cached call interleaved with ANY sequence, any length, any number of participants, of environment "
+    "steps within the guarantee returns the right value and does not raise), call_correct_under_G_clear_partial + F19 witness; "
+    "interleavings of 2-4 threads at line granularity under a sys.monitoring scheduler on the real code, compared call by call.",
+    note="modelled not verified: FS syscall atomicity, thread scheduling below line granularity; F19 (call vs clear) and F37 (three "
+    "first-time callers) are known findings; exceptions raised by clear/reduce_size themselves are outside the property.",
+    technique="Lean 4 proof (rely/guarantee over the file-system model) + deterministic line-level schedule correspondence",
+    ref="6/C11",
+)
+CHECKS["C03"] = dict(
+    text="table_prefix_free / table_disjoint_from_pickle (decide over the magic-number and pickle-opcode tables REGENERATED from the live "
+    "/repo objects on every run), detect_after_write, detect_pickle, roundtrip (for every compress argument, target, protocol and "
+    "load-time file name that dump accepts, load selects the matching codec), resolve_total, resolve_error_class, level_zero_rule, "
+    "extension_implies_method; exhaustive correspondence of the compress-argument resolution (12.7k cases observing the bytes actually "
+    "written) + round trips of a recursive object universe under every available compressor and protocol, renamed before loading.",
+    note="modelled not verified: pickle/unpickle and the codecs are parameters with explicit inverse laws (tested on this interpreter); "
+    "shared/recursive references are pickle's memo (tested, not proved); lz4 not installed.",
+    technique="Lean 4 proof (decision ladder + decide over regenerated tables) + exhaustive resolution correspondence",
+    ref="6/C03",
+)
+
 NOT_BUILT = "check not built yet in this round (planned: see DESIGN.md section 6); not claimed"
 NOT_APPLICABLE = {}
 
